@@ -79,6 +79,9 @@ func TestRejected(t *testing.T) {
 		{"SliceHigh", "slice expression (only s[a:])"},
 		{"WhileNoFuel", "no fuel given"},
 		{"ElemGlobal", "not among the globals declared"},
+		{"AliasAppend", "append outside `x = append(x, ...)`"},
+		{"AliasCopy", "is assigned from a value that may share its backing array"},
+		{"AliasParams", "could share its backing array with another slice parameter"},
 		{"NoFuel", "no fuel given"},
 		{"Undeclared", "not among the views declared"},
 	}
@@ -117,6 +120,7 @@ func TestSlices(t *testing.T) {
 		{dir: "pos2", file: "pos2.go", name: "Twice", lean: "twice"},
 		{dir: "pos2", file: "pos2.go", name: "Bit", lean: "bit", round2: true},
 		{dir: "pos2", file: "pos2.go", name: "Iter", lean: "iter", fuel: []string{"9"}},
+		{dir: "pos2", file: "pos2.go", name: "mk", lean: "mk"},
 		{dir: "pos2", file: "pos2.go", name: "init", lean: "rowsInit", globals: "rows", writes: "rows"},
 		{dir: "neg", file: "neg.go", name: "Shadow", lean: "shadow"},
 	}
@@ -171,7 +175,7 @@ func TestSlices(t *testing.T) {
 			"match iter_loop0 (9) (it, n) with",
 			// init assigning a global: the variable is parameter and result
 			"def rowsInit (g_rows : Array (Array (BitVec 32))) : Option (Array (Array (BitVec 32))) :=\n  let g_rows : Array (Array (BitVec 32)) := (Array.replicate 3 #[])",
-			"let g_rows := g_rows.setIfInBounds k.toNat ((g_rows.getD (k - (1 : Int)).toNat #[]).push (BitVec.ofInt 32 k))",
+			"let g_rows := g_rows.setIfInBounds k.toNat (mk k)",
 		} {
 			if !strings.Contains(src, want) {
 				t.Errorf("generated source lacks:\n%s", want)
